@@ -167,12 +167,9 @@ class C06(Check):
         im = Impl()
         self.im = im
         try:
-            self.oracle_record(ctx, im)
-            self.run_corpus(ctx, im)
-            self.corr_append(ctx, im)
-            self.run_sheets(ctx, im)
-            self.run_files(ctx, im)
-            self.oracle_restore(ctx, im)
+            for part in (self.oracle_record, self.run_corpus, self.corr_append, self.run_namespaces,
+                         self.run_sheets, self.run_files, self.oracle_restore):
+                ctx.phase(part, ctx, im)
         finally:
             im.cu.ser.prefs.useDefaults()
 
@@ -286,8 +283,14 @@ class C06(Check):
         oracle_on = True
         if raw:
             # dry run under the default record: a DOM that does not survive a plain round trip is not judged here
+            # (under the default record and under the filter-free record, which also writes @variables rules)
             probe = Probe()
             self.oracle_case(probe, im, sh, src, im.defaults, {}, d0, d0, kinds, cache, deep=True)
+            if not probe.hit:
+                neutral = self.full(im, self.NEUTRAL)
+                rn, _ = im.serialize(sh, neutral)
+                self.oracle_case(probe, im, sh, src, neutral, diff_prefs(neutral, im.defaults), rn, d0, kinds, cache,
+                                 deep=True)
             oracle_on = not probe.hit
             if not oracle_on:
                 ctx.count('raw-dom-fails-plain-round-trip')
@@ -375,12 +378,7 @@ class C06(Check):
         wit = {'src': src, 'prefs': dp}
         # 1. never raises
         if res[0] == 'ERR':
-            known = None
-            if res[1] == 'AttributeError' and '_keyword' in res[2] and not prefs['defaultAtKeyword']:
-                known = 'C06-atkeyword-attr'
-            elif res[1] == 'ValueError' and 'empty separator' in res[2] and prefs['lineNumbers'] and prefs['lineSeparator'] == '':
-                known = 'C06-linenumbers-emptysep'
-            ctx.violate('serializing raises %s' % res[1], wit, res[2], known=known)
+            ctx.violate('serializing raises %s' % res[1], wit, res[2])
             return
         if prefs['lineNumbers'] or prefs['indentSpecificities']:
             return   # the output is a numbered listing / EXPERIMENTAL: not claimed to be the same style sheet
@@ -426,18 +424,6 @@ class C06(Check):
                 else:
                     out.append((t, v))
             return out
-        def n5(ts):   # region of C06-empty-items-block: a rule written with an empty block `prelude { }`
-            out = []
-            i = 0
-            while i < len(ts):
-                if ts[i] == ('CHAR', '{') and i + 1 < len(ts) and ts[i + 1] == ('CHAR', '}'):
-                    while out and out[-1] not in (('CHAR', '}'), ('CHAR', ';'), ('CHAR', '{')):
-                        out.pop()
-                    i += 2
-                else:
-                    out.append(ts[i])
-                    i += 1
-            return out
         if n3(a) == n3(b):
             ctx.violate('layout preferences change a non-whitespace token', wit,
                         self.first_diff(a, b), known='C06-indent-inside-token')
@@ -447,9 +433,6 @@ class C06(Check):
         elif prefs['selectorCombinatorSpacer'] == '' and n3(n4(a)) == n3(n4(b)):
             ctx.violate('layout preferences change the token sequence', wit,
                         self.first_diff(a, b), known='C06-nth-plus-fusion')
-        elif not prefs['keepEmptyRules'] and (n5(a) != a or n5(b) != b) and n3(n4(n5(a))) == n3(n4(n5(b))):
-            ctx.violate('layout preferences change the token sequence', wit,
-                        self.first_diff(a, b), known='C06-empty-items-block')
         else:
             ctx.violate('layout preferences change the non-whitespace token sequence', wit, self.first_diff(a, b))
 
@@ -506,25 +489,12 @@ class C06(Check):
                     return list(x)
                 return [n8(y) for y in x]
             return x
-        lost = set()
-        if prefs['keepUsedNamespaceRulesOnly']:
-            lost = O.used_uris(sh) - {u for u in sh._getUsedURIs() if isinstance(u, str)}
-
-        def n7(x):   # region of C06-nested-media-namespace (see known/C06.json): compared without the @media subtrees
-            return [r for r in x if r[0] != 'media' and not (r[0] == 'namespace' and r[2] in lost)]
-
-        def n5(x):   # region of C06-empty-items-block: rules written with a white-space-only block
-            return self.drop_empty(x)
         # the normalisations whose region predicate holds for this case, applied to both sides
         norms = [('C06-indent-inside-token', n3)]
         if prefs['selectorCombinatorSpacer'] == '':
             norms.append(('C06-nth-plus-fusion', n4))
         if prefs['minimizeColorHash']:
             norms.append(('C06-hash-in-unknown-rule', n8))
-        if lost:
-            norms.append(('C06-nested-media-namespace', n7))
-        if not prefs['keepEmptyRules']:
-            norms.append(('C06-empty-items-block', n5))
 
         def apply(fs, x):
             for _, f in fs:
@@ -544,19 +514,6 @@ class C06(Check):
         ctx.violate('reparse differs from the documented effect of the preferences', wit,
                     self.first_diff(got, expected))
 
-    def drop_empty(self, proj):
-        out = []
-        for r in proj:
-            if r[0] == 'style' and not r[2]:
-                continue
-            if r[0] == 'media':
-                rs = self.drop_empty(r[3])
-                if not rs:
-                    continue
-                r = ('media', r[1], r[2], rs)
-            out.append(r)
-        return out
-
     # -- streams --------------------------------------------------------------------------------
     def run_corpus(self, ctx, im):
         d = os.path.join(ctx.verif, 'tools', 'corpus', 'C06')
@@ -564,6 +521,41 @@ class C06(Check):
         for fn in sorted(glob.glob(os.path.join(d, '*.json'))):
             for entry in json.load(open(fn)):
                 pending += self.check_sheet(ctx, im, entry['src'], [entry.get('prefs', {})], 'corpus', roundtrip=False)
+        self.flush(ctx, pending)
+
+    # -- every place a namespace prefix can be used in, one at a time ----------------------------------
+    NS_PLACES = {
+        'top-level type selector': 'p|a{x:y}',
+        'top-level universal': 'p|*{x:y}',
+        'second selector of a list': 'b, c > p|a{x:y}',
+        'attribute selector': 'a[p|x=y]{x:y}',
+        'inside :not()': 'a:not(p|b){x:y}',
+        'attribute inside :not()': 'a:not([p|x]){x:y}',
+        '@media depth 1': '@media print{p|a{x:y}}',
+        '@media depth 1 after another rule': '@media print{b{x:y} p|a{x:y}}',
+        '@media depth 2': '@media print{@media screen{p|a{x:y}}}',
+        '@media depth 3': '@media print{@media screen{@media tv{c{x:y} p|a{x:y}}}}',
+        'default namespace, top level': 'a{x:y}',
+        'default namespace, @media depth 1': '@media print{a{x:y}}',
+    }
+
+    def run_namespaces(self, ctx, im):
+        """Sheets in which each namespace prefix is used in exactly ONE place, under the default record, every
+        content preference alone and the minified preset: the reparse must be the original DOM minus the unused
+        @namespace rules (checked by the general content oracle against the independent `effect`)."""
+        content = [k for k in X.PREF_ORDER if k not in O.LAYOUT and k not in ('lineNumbers', 'indentSpecificities')]
+        recs = [{}] + [{k: (ALT[k][0] if k in ALT else not im.defaults[k])} for k in content] \
+            + [diff_prefs(im.minified, im.defaults)]
+        pending = []
+        for place, body in self.NS_PLACES.items():
+            if place.startswith('default namespace'):
+                heads = ['@namespace "u0";@namespace q "u2";', '@namespace q "u2";@namespace "u0";@namespace r "u3";']
+            else:
+                heads = ['@namespace p "u1";@namespace q "u2";', '@namespace q "u2";@namespace p "u1";',
+                         '@namespace "u0";@namespace p "u1";@namespace q "u2";']
+            for head in heads:
+                for tail in ('', 'd{left:0}'):
+                    pending += self.check_sheet(ctx, im, head + body + tail, recs, 'namespace-place')
         self.flush(ctx, pending)
 
     def run_sheets(self, ctx, im):
@@ -620,7 +612,7 @@ class C06(Check):
     # -- Out.append scripts against the real Out class ----------------------------------------------
     VALS = ['+', '>', '~', ',', ':', '{', ';', ')', ']', '/', '=', '}', '[', '(', '-', '*', 'a', 'b c', 'x ', ' ', '', '  ',
             '1px', '"s"', 'f(', '#aabbcc', '#abc', '#aabbcd', ')]', '/=', '+>', '()', '{}', 'a\nb', '\n', 'url(x)', 'a b',
-            '#AABBCC', '}\n', '!important', '@x', '.5', 'é', '\t', 'a\t']
+            '#AABBCC', '}\n', '!important', '@x', '.5', 'é', '\t', 'a\t', 'b\\ ', '\\ ', 'x\\\\ ', 'c\\  ']
     TYPES = ['COMMENT', 'S', 'STRING', 'URI', 'HASH', 'FUNCTION', 'adjacent-sibling', 'child', 'following-sibling', 'plus',
              'styletext', 'IDENT', 'CHAR', 'CHAR', 'CHAR', None, None, None, 'DIMENSION', 'Value', 'operator', 'COMMA',
              'descendant', 'ATKEYWORD', 'COLOR_VALUE']
@@ -759,8 +751,6 @@ class C06(Check):
             sh = im.parse(w['src'])
             prefs = self.full(im, w['prefs'])
             res, _ = im.serialize(sh, prefs)
-            if fid in ('C06-atkeyword-attr', 'C06-linenumbers-emptysep'):
-                return res[0] == 'ERR'
             if res[0] != 'OK':
                 return True
             if fid in ('C06-indent-inside-token', 'C06-nth-plus-fusion'):
@@ -769,7 +759,7 @@ class C06(Check):
                     q[k] = im.defaults[k]
                 base, _ = im.serialize(sh, q)
                 return O.nontoks(res[1]) != O.nontoks(base[1])
-            if fid in ('C06-empty-items-block', 'C06-nested-media-namespace', 'C06-hash-in-unknown-rule'):
+            if fid == 'C06-hash-in-unknown-rule':
                 leaf = {k: prefs[k] for k in O.LEAF}
                 leaf.update(O.LEAF_FIXED)
                 expected = im.with_prefs(leaf, lambda: O.effect(O.canon(sh), prefs, O.used_uris(sh)))
